@@ -65,6 +65,9 @@ pub struct Scn {
     pub chain: Vec<Hop>,
     #[serde(default)]
     pub follow: bool,
+    /// cookies the caller attaches to the client's request (name, value)
+    #[serde(default)]
+    pub client_cookies: Vec<(String, String)>,
     #[serde(default)]
     pub plan_seed: u64,
 }
@@ -113,7 +116,10 @@ fn host_addr(i: usize) -> SocketAddr {
 }
 
 /// A scripted conforming server: answers each request by path from its table.
-fn serve(l: TcpListener, table: Vec<(String, RespModel)>, seg: String, keep_open: bool, log: Arc<Mutex<Vec<String>>>) {
+/// `gated` paths belong to the same session as the first request (`/p0`): a conforming server
+/// that keys its answer on the session cookie answers 403 when a follow-up request on the same
+/// host does not carry the cookie pairs the first request carried.
+fn serve(l: TcpListener, table: Vec<(String, RespModel)>, seg: String, keep_open: bool, log: Arc<Mutex<Vec<String>>>, gated: Vec<String>, session: Arc<Mutex<Option<Vec<String>>>>) {
     loop {
         let (mut s, _) = match l.accept() {
             Ok(x) => x,
@@ -124,6 +130,7 @@ fn serve(l: TcpListener, table: Vec<(String, RespModel)>, seg: String, keep_open
         }
         let table = table.clone();
         let log = log.clone();
+        let (gated, session) = (gated.clone(), session.clone());
         humsim::thread::spawn(move || {
             // read the request head (+ Content-Length body)
             use std::io::Read;
@@ -149,7 +156,28 @@ fn serve(l: TcpListener, table: Vec<(String, RespModel)>, seg: String, keep_open
             log.lock().unwrap().push(line.clone());
             let target = line.split(' ').nth(1).unwrap_or("/").to_string();
             let path = target.split('?').next().unwrap_or("/").to_string();
-            let resp = table.iter().find(|(p, _)| *p == path).map(|(_, r)| r.clone()).unwrap_or(RespModel { version: "HTTP/1.1".into(), status: 404, headers: vec![("X-Not-In-Table".into(), "1".into())], body: b"nf".to_vec(), framing: "cl".into(), chunks: vec![], hex_upper: false, name_style: 0, sep_style: 0 });
+            let head_end = buf.windows(4).position(|w| w == b"\r\n\r\n").unwrap_or(buf.len());
+            let mut pairs: Vec<String> = Vec::new();
+            for l in String::from_utf8_lossy(&buf[..head_end]).lines().skip(1) {
+                if let Some((n, v)) = l.split_once(':') {
+                    if n.trim().eq_ignore_ascii_case("cookie") {
+                        pairs.extend(v.split(';').map(|p| p.trim().to_string()).filter(|p| !p.is_empty()));
+                    }
+                }
+            }
+            if path == "/p0" {
+                *session.lock().unwrap() = Some(pairs.clone());
+            }
+            let no_session = gated.contains(&path) && session.lock().unwrap().as_ref().map(|first| first.iter().any(|p| !pairs.contains(p))).unwrap_or(false);
+            if no_session {
+                log.lock().unwrap().push(format!("  (answered 403: the request carried cookies {:?}, the first request of the chain {:?})", pairs, session.lock().unwrap()));
+            }
+            let resp = if no_session {
+                Some(RespModel { version: "HTTP/1.1".into(), status: 403, headers: vec![("X-No-Session".into(), "1".into())], body: b"no session".to_vec(), framing: "cl".into(), chunks: vec![], hex_upper: false, name_style: 0, sep_style: 0 })
+            } else {
+                None
+            };
+            let resp = resp.or_else(|| table.iter().find(|(p, _)| *p == path).map(|(_, r)| r.clone())).unwrap_or(RespModel { version: "HTTP/1.1".into(), status: 404, headers: vec![("X-Not-In-Table".into(), "1".into())], body: b"nf".to_vec(), framing: "cl".into(), chunks: vec![], hex_upper: false, name_style: 0, sep_style: 0 });
             let wire = resp.render();
             write_all(&mut s, &wire);
             let self_delim = no_body_status(resp.status) || resp.effective_framing() == "cl" || resp.effective_framing() == "chunked";
@@ -369,6 +397,15 @@ impl C07 {
         let took: Arc<Mutex<u64>> = Arc::new(Mutex::new(0));
         let took2 = took.clone();
         let (result2, logs2, scn2, first_host) = (result.clone(), logs.clone(), scn.clone(), chain[0].host % 4);
+        // hops reached without ever leaving the first host stay in the first request's session
+        let gated: Vec<String> = chain.iter().enumerate().skip(1).take_while(|(_, h)| h.host % 4 == first_host).map(|(i, _)| format!("/p{}", i)).collect();
+        let session: Arc<Mutex<Option<Vec<String>>>> = Arc::new(Mutex::new(None));
+        if !scn.client_cookies.is_empty() {
+            rr.count("c07.client_sends_cookies", 1);
+            if redirect && scn.follow && !gated.is_empty() {
+                rr.count("c07.session_cookie_checked_on_followed_hop", 1);
+            }
+        }
         let outcome = sim::run(scn.sim.to_config(), move || {
             let scn = scn2;
             for (h, t) in tables.iter().enumerate() {
@@ -377,7 +414,8 @@ impl C07 {
                 }
                 let l = TcpListener::bind(host_addr(h)).expect("bind");
                 let (t, seg, keep, log) = (t.clone(), scn.seg.clone(), scn.keep_open, logs2[h].clone());
-                humsim::thread::spawn(move || serve(l, t, seg, keep, log));
+                let (g, sess) = (if h == first_host { gated.clone() } else { Vec::new() }, session.clone());
+                humsim::thread::spawn(move || serve(l, t, seg, keep, log, g, sess));
             }
             let url = format!("http://{}/p0?q=1", host_addr(first_host).ip());
             let mut client = Client::new();
@@ -389,6 +427,12 @@ impl C07 {
                 _ => client.get(&url),
             };
             let t_call = sim::now_ns();
+            let req = req.map(|mut rq| {
+                for (n, v) in &scn.client_cookies {
+                    rq = rq.with_cookie(humphrey::http::cookie::Cookie::new(n, v));
+                }
+                rq
+            });
             let r = match req {
                 Ok(rq) => rq.with_redirects(scn.follow && scn.part == "redirect").send().map(|r| (u16::from(r.status_code), headers_of(&r), r.body.clone(), r.version.clone())).map_err(|e| e.to_string()),
                 Err(e) => Err(format!("url rejected: {}", e)),
@@ -481,7 +525,7 @@ impl Prop for C07 {
         }
     }
     fn rule(&self) -> &'static str {
-        "Run indices 0..125: the real Client against a conforming chunked server for bodies of 1..6 bytes under ALL 63 compositions into chunks x {lower, upper} hex sizes (enumerated). Then seeded cases, 50% (a) a Response built through the public API over all 39 status codes, 0..40 headers with repeated names, Set-Cookie over random subsets of the 7 attributes (all 128 subsets are drawn across a batch), bodies 0..64 KiB: serialised, checked by the strict reference grammar (registered reason phrase, one line per header, Set-Cookie attributes), and parsed back under whole / bytewise / EVERY split point (<= 600 bytes) / EINTR read plans; 35% (b) the real Client (GET/POST/PUT/DELETE) against scripted servers on port 80 of simulated hosts sending Content-Length, chunked (random chunkings, either hex case), close-delimited and body-less responses, closing or keep-alive, under stream segmentations; 15% (c) redirect chains of length 0..5 over {301,302,307} with relative and absolute Location across up to 4 simulated hosts, following on or off. Distinct = distinct (part, status, framing, chunking, segmentation / plan); non-trivial = everything except body-less single responses."
+        "Run indices 0..125: the real Client against a conforming chunked server for bodies of 1..6 bytes under ALL 63 compositions into chunks x {lower, upper} hex sizes (enumerated). Then seeded cases, 50% (a) a Response built through the public API over all 39 status codes, 0..40 headers with repeated names, Set-Cookie over random subsets of the 7 attributes (all 128 subsets are drawn across a batch), bodies 0..64 KiB: serialised, checked by the strict reference grammar (registered reason phrase, one line per header, Set-Cookie attributes), and parsed back under whole / bytewise / EVERY split point (<= 600 bytes) / EINTR read plans; 35% (b) the real Client (GET/POST/PUT/DELETE) against scripted servers on port 80 of simulated hosts sending Content-Length, chunked (random chunkings, either hex case), close-delimited and body-less responses, closing or keep-alive, under stream segmentations; 15% (c) redirect chains of length 0..5 over {301,302,307} with relative and absolute Location across up to 4 simulated hosts, following on or off; in half of the cases the caller attaches 1..3 cookies and the servers are session-keyed: a follow-up request on the first host that lacks a cookie pair the first request carried is answered 403 (so the chain's final response is reached only by a client that stays the same client across hops). Distinct = distinct (part, status, framing, chunking, segmentation / plan); non-trivial = everything except body-less single responses."
     }
     fn assumptions(&self) -> Vec<String> {
         vec![
@@ -492,7 +536,7 @@ impl Prop for C07 {
         ]
     }
     fn expected_counters(&self) -> Vec<&'static str> {
-        vec!["c07.serialised", "c07.with_set_cookie", "c07.client_runs", "c07.redirect_runs", "c07.framing.chunked", "c07.framing.cl", "c07.framing.close", "c07.framing.none", "c07.all_compositions", "c07.absolute_location", "c07.cross_host_redirect", "c07.chain_len_5", "c07.chain_len_0", "net.segmented_write"]
+        vec!["c07.serialised", "c07.with_set_cookie", "c07.client_runs", "c07.redirect_runs", "c07.framing.chunked", "c07.framing.cl", "c07.framing.close", "c07.framing.none", "c07.all_compositions", "c07.absolute_location", "c07.cross_host_redirect", "c07.chain_len_5", "c07.chain_len_0", "c07.client_sends_cookies", "c07.session_cookie_checked_on_followed_hop", "net.segmented_write"]
     }
     fn real_vs_stub(&self) -> (Vec<&'static str>, Vec<&'static str>) {
         (vec!["Response builders, From<Response> for Vec<u8>, Response::from_stream + parse_chunk, StatusCode tables, SetCookie -> Header, Client::{get,post,put,delete,request}, ClientRequest::send incl. the redirect loop, Client::parse_url"], vec!["TcpStream (humsim::net; port 80 of simulated hosts)", "servers are harness reference implementations", "scripted reader for the parse-back part"])
@@ -515,7 +559,7 @@ impl Prop for C07 {
             let comp = composition(n, k - base);
             let body: Vec<u8> = (0..n).map(|i| b'a' + i as u8).collect();
             let resp = RespModel { version: "HTTP/1.1".into(), status: 200, headers: vec![("Content-Type".into(), "text/plain".into())], body, framing: "chunked".into(), chunks: comp, hex_upper: idx % 2 == 1, name_style: 0, sep_style: 0 };
-            return serde_json::to_value(Scn { sim, part: "client".into(), resp, cookies: vec![], method: "GET".into(), seg: ["", "onebyte", "random:3"][rng.usize_below(3)].into(), keep_open: rng.chance(1, 2), chain: vec![], follow: false, plan_seed: 0 }).unwrap();
+            return serde_json::to_value(Scn { sim, part: "client".into(), resp, cookies: vec![], method: "GET".into(), seg: ["", "onebyte", "random:3"][rng.usize_below(3)].into(), keep_open: rng.chance(1, 2), chain: vec![], follow: false, client_cookies: vec![], plan_seed: 0 }).unwrap();
         }
         let r = rng.below(100);
         let part = if r < 50 { "ser" } else if r < 85 { "client" } else { "redirect" };
@@ -543,6 +587,14 @@ impl Prop for C07 {
                 Hop { host: rng.usize_below(4), path: String::new(), resp: r, absolute: rng.chance(1, 2) }
             })
             .collect();
+        let mut chain: Vec<Hop> = chain;
+        if rng.chance(1, 3) {
+            // a chain that never leaves the first host (relative and absolute Locations alike)
+            let h0 = chain.first().map(|h| h.host).unwrap_or(0);
+            for h in chain.iter_mut() {
+                h.host = h0;
+            }
+        }
         serde_json::to_value(Scn {
             sim,
             part: part.into(),
@@ -553,6 +605,7 @@ impl Prop for C07 {
             keep_open: rng.chance(1, 3),
             chain,
             follow: !rng.chance(1, 4),
+            client_cookies: if part != "ser" && rng.chance(1, 2) { (0..rng.range(1, 3)).map(|j| (format!("s{}", j), format!("t{}", rng.below(100_000)))).collect() } else { vec![] },
             plan_seed: rng.next_u64() >> 1,
         })
         .unwrap()
